@@ -3,6 +3,7 @@ CONSTANTS
   Configs <- MCConfigs
   DoneSendBlocking = FALSE
   ExitStops = TRUE
+  FirstErrorOnly = FALSE
   MaxLen = 2
   Trailing = TRUE
   Bs = {1, 2, 3}
